@@ -190,3 +190,12 @@ def only_accepted_carried(prog: Program, rep) -> None:
     rep.check(not leaks, "only-accepted-carried", sv.qualname, short(leaks[0][0].stmt) if leaks else "",
               f"nothing computed after the loop reads a value of the trial step (leaks: {[l[1] for l in leaks][:4]})", sv.loc(leaks[0][0].stmt) if leaks else sv.loc())
     rep.pin("statements after the main loop", len(after), 8)
+    # the recorded path (part of the result) grows only by accepted candidates, after the policy's veto
+    uses_cp = any(isinstance(n, ast.Attribute) and n.attr == "collect_path" for n in own_nodes(sv.node))
+    ups = L.recorder_updates()
+    if uses_cp and not ups:
+        raise AnalysisError("Solver.solve reads params.collect_path, but no statement of the main loop extends a path list / recorder bound under that option "
+                            "(path recording is not in a recognised form)")
+    for s in ups:
+        rep.check(L.post_veto_fact(s), "only-accepted-carried", sv.qualname, short(s.stmt),
+                  "the recorded path / model times are extended only under the post-veto acceptance (no vetoed or rejected trial point reaches result.path)", sv.loc(s.stmt))
